@@ -202,7 +202,7 @@ impl Prop for C05 {
     fn plan(&self, tier: Tier) -> Plan {
         match tier {
             Tier::Quick => Plan { runs: 8000, time_box_s: None, isolation: Isolation::Threads },
-            Tier::Thorough => Plan { runs: 300_000, time_box_s: Some(480), isolation: Isolation::Threads },
+            Tier::Thorough => Plan { runs: 1_200_000, time_box_s: Some(480), isolation: Isolation::Threads },
         }
     }
     fn generate(&self, rc: &RunCtx) -> Case {
